@@ -3,6 +3,7 @@ Helper lemmas for C10: a part of a simulation that no wire connects to the rest.
 -/
 import TickitModel.Lemmas.TickEqLemmas
 import TickitModel.Lemmas.FlatDetLemmas
+import TickitModel.Lemmas.RouterLemmas
 
 namespace Tickit
 
@@ -16,5 +17,248 @@ structure IsPart (w wa : Wiring) (A : Comp → Prop) : Prop where
   /-- what a root drags into a tick is the same in the part as in the whole -/
   extent_iff : ∀ roots rootsA c, A c → (∀ r, r ∈ rootsA ↔ r ∈ roots ∧ A r) →
     (c ∈ extent w roots ↔ c ∈ extent wa rootsA)
+
+/-! ### one tick of the part and of the whole -/
+
+section Tick
+variable {Val : Type}
+
+/-- a `Fed` port transfers between two wirings that have the same wires into `c` and whose
+sources answer alike. -/
+theorem fed_transfer {w w' : Wiring} {react : React Val} {tr1 tr2 : List (Ev Val)} {c : Comp}
+    (hconn : ∀ a p q, w.Conn a p c q → w'.Conn a p c q)
+    (h : ∀ a p q, w.Conn a p c q →
+      (dispatchOf tr1 a).map (answerOf react) = (dispatchOf tr2 a).map (answerOf react))
+    {q : Port} {v : Val} (hf : Fed w react tr1 c q v) : Fed w' react tr2 c q v := by
+  obtain ⟨a, p, d, hc, hd, hv⟩ := hf
+  have := h a p q hc
+  rw [hd, Option.map_some] at this
+  obtain ⟨d', hd', he⟩ := Option.map_eq_some_iff.1 this.symm
+  exact ⟨a, p, d', hconn a p q hc, hd', he ▸ hv⟩
+
+theorem IsPart.tick_same {w wa : Wiring} {A : Comp → Prop} (hp : IsPart w wa A)
+    (hw : RouterOK w) (hwa : RouterOK wa) (hacyca : wa.Acyclic)
+    {react : React Val} (hr : ReactWF react) (hext : Det.ReactExtN react)
+    {t : SimTime} {roots rootsA : List Comp} (hroots : ∀ r, r ∈ rootsA ↔ r ∈ roots ∧ A r)
+    {s sa : TickSys Val} (h : s.Reachable w react t roots) (ha : sa.Reachable wa react t rootsA)
+    (hf : s.tk.toUpdate = []) (hfa : sa.tk.toUpdate = []) (c : Comp) (hc : A c) :
+    SameDispatch (dispatchOf s.trace c) (dispatchOf sa.trace c) := by
+  classical
+  obtain ⟨rank, hrank⟩ := hacyca
+  have hn1 := (Det.reachable_insInv hw h).2
+  have hn2 := (Det.reachable_insInv hwa ha).2
+  suffices key : ∀ n c, A c → rank c < n →
+      SameDispatch (dispatchOf s.trace c) (dispatchOf sa.trace c) from
+    key _ c hc (Nat.lt_succ_self _)
+  intro n
+  induction n with
+  | zero => intro c _ hc; omega
+  | succ n ih =>
+    intro c hAc hc
+    have hext_iff := hp.extent_iff roots rootsA c hAc hroots
+    cases h1c : dispatchOf s.trace c with
+    | none =>
+      have hce := (dispatchOf_eq_none_iff_of_complete hw hr h hf c).1 h1c
+      rw [(dispatchOf_eq_none_iff_of_complete hwa hr ha hfa c).2 (fun h' => hce (hext_iff.2 h'))]
+      trivial
+    | some d1 =>
+      obtain ⟨hce, _, hsp1⟩ := dispatch_spec hw hr h h1c
+      cases h2c : dispatchOf sa.trace c with
+      | none =>
+        exact absurd (hext_iff.1 hce)
+          ((dispatchOf_eq_none_iff_of_complete hwa hr ha hfa c).1 h2c)
+      | some d2 =>
+        obtain ⟨_, ⟨us, hus⟩, hsp2⟩ := dispatch_spec hwa hr ha h2c
+        have hP : ∀ a p q, wa.Conn a p c q →
+            (dispatchOf s.trace a).map (answerOf react) =
+              (dispatchOf sa.trace a).map (answerOf react) := by
+          intro a p q hconn
+          have := hrank c us a hus ((hwa.ups_edge c us hus a).2 ⟨p, q, hconn⟩)
+          exact Det.sameDispatch_answer hext hn1 hn2 (ih a (hp.inside _ _ _ _ hconn).1 (by omega))
+        have hci : ∀ a p q, w.Conn a p c q ↔ wa.Conn a p c q := fun a p q => hp.conn_iff a p c q hAc
+        have hfed : ∀ q v, Fed w react s.trace c q v ↔ Fed wa react sa.trace c q v :=
+          fun q v => ⟨fed_transfer (fun a p q => (hci a p q).1) (fun a p q h' => hP a p q ((hci a p q).1 h')),
+            fed_transfer (fun a p q => (hci a p q).2) (fun a p q h' => (hP a p q h').symm)⟩
+        have hrt : c ∈ roots ↔ c ∈ rootsA := ⟨fun h' => (hroots c).2 ⟨h', hAc⟩, fun h' => ((hroots c).1 h').1⟩
+        rcases hsp1 with ⟨i1, rfl, hr1, hi1⟩ | ⟨rfl, hnr1, hno1⟩ <;>
+          rcases hsp2 with ⟨i2, rfl, hr2, hi2⟩ | ⟨rfl, hnr2, hno2⟩
+        · exact ⟨rfl, rfl, fun q => option_ext_some (fun v =>
+            (hi1 q v).trans ((hfed q v).trans (hi2 q v).symm))⟩
+        · rcases hr1 with hr1 | ⟨q, v, hr1⟩
+          · exact absurd (hrt.1 hr1) hnr2
+          · exact absurd ((hfed q v).1 hr1) (hno2 q v)
+        · rcases hr2 with hr2 | ⟨q, v, hr2⟩
+          · exact absurd (hrt.2 hr2) hnr1
+          · exact absurd ((hfed q v).2 hr2) (hno1 q v)
+        · exact ⟨rfl, rfl⟩
+
+end Tick
+
+/-! ### staying inside a part -/
+
+/-- on a well-formed wiring, everything a root inside `A` drags in lies in `A`, as soon as no
+wire leaves `A`. -/
+theorem dependants_inside {w : Wiring} (hwf : w.WF) {A : Comp → Prop}
+    (hcl : ∀ a p b q, w.Conn a p b q → A a → A b) {r : Comp} (hr : A r) :
+    ∀ c ∈ w.dependants r, A c :=
+  Wiring.dependants_sound hwf r A hr (fun a b ha ⟨p, q, hc⟩ => hcl a p b q hc ha)
+
+theorem IsPart.extent_inside {w wa : Wiring} {A : Comp → Prop} (hp : IsPart w wa A) (hwf : w.WF)
+    {rootsA : List Comp} (hA : ∀ r ∈ rootsA, A r) {c : Comp} (hc : c ∈ extent w rootsA) : A c := by
+  obtain ⟨r, hr, hcr⟩ := (Det.mem_extent_iff w rootsA c).1 hc
+  exact dependants_inside hwf (fun a p b q h ha => (hp.closed a p b q h).1 ha) (hA r hr) c hcr
+
+/-- `IsPart` from facts about wires only, for well-formed wirings: the extent clause follows. -/
+theorem IsPart.of_wf {w wa : Wiring} {A : Comp → Prop} (hw : w.WF) (hwa : wa.WF)
+    (conn_iff : ∀ a p b q, A b → (w.Conn a p b q ↔ wa.Conn a p b q))
+    (closed : ∀ a p b q, w.Conn a p b q → (A a ↔ A b))
+    (inside : ∀ a p b q, wa.Conn a p b q → A a ∧ A b)
+    (ups_some : ∀ c, A c → ((w.ups c).isSome ↔ (wa.ups c).isSome)) : IsPart w wa A where
+  conn_iff := conn_iff
+  closed := closed
+  inside := inside
+  ups_some := ups_some
+  extent_iff := by
+    intro roots rootsA c hc hroots
+    rw [Det.mem_extent_iff, Det.mem_extent_iff]
+    constructor
+    · rintro ⟨r, hr, hcr⟩
+      have key : ∀ x ∈ w.dependants r, A x → A r ∧ x ∈ wa.dependants r := by
+        refine Wiring.dependants_sound hw r _ (fun h => ⟨h, (Wiring.dependants_closed wa r).1⟩) ?_
+        rintro a b ih ⟨p, q, hconn⟩ hb
+        obtain ⟨hAr, har⟩ := ih ((closed a p b q hconn).2 hb)
+        exact ⟨hAr, (Wiring.dependants_closed wa r).2 a har b ⟨p, q, (conn_iff a p b q hb).1 hconn⟩⟩
+      obtain ⟨hAr, hcr'⟩ := key c hcr hc
+      exact ⟨r, (hroots r).2 ⟨hr, hAr⟩, hcr'⟩
+    · rintro ⟨r, hr, hcr⟩
+      refine ⟨r, ((hroots r).1 hr).1, ?_⟩
+      refine Wiring.dependants_sound hwa r (fun x => x ∈ w.dependants r)
+        (Wiring.dependants_closed w r).1 ?_ c hcr
+      rintro a b ha ⟨p, q, hconn⟩
+      exact (Wiring.dependants_closed w r).2 a ha b
+        ⟨p, q, (conn_iff a p b q (inside a p b q hconn).2).2 hconn⟩
+
+/-! ### the union of two wirings over disjoint component sets -/
+
+theorem Wiring.conn_append {wa wb : Wiring} {a : Comp} {p : Port} {b : Comp} {q : Port} :
+    (wa ++ wb).Conn a p b q ↔ wa.Conn a p b q ∨ (a ∉ akeys wa ∧ wb.Conn a p b q) := by
+  unfold Wiring.Conn
+  rw [alookup_append]
+  cases h : alookup wa a with
+  | none =>
+    have := rt_alookup_eq_none_iff.1 h
+    simp [this]
+  | some ports =>
+    have : a ∈ akeys wa := mem_akeys_of_alookup h
+    simp [this]
+
+theorem Wiring.mem_components_of_mem_akeys {w : Wiring} {c : Comp} (h : c ∈ akeys w) :
+    c ∈ w.components := (Wiring.mem_components w c).2 (Or.inr h)
+
+theorem Wiring.WF_append {wa wb : Wiring} (hwa : wa.WF) (hwb : wb.WF)
+    (hdisj : ∀ c, c ∈ akeys wa → c ∉ akeys wb) : (wa ++ wb).WF := by
+  refine ⟨?_, ?_⟩
+  · unfold DictWF
+    rw [akeys_append, List.nodup_append]
+    exact ⟨hwa.1, hwb.1, fun a ha b hb hab => hdisj a ha (hab ▸ hb)⟩
+  · intro e he
+    rcases List.mem_append.1 he with h | h
+    · exact hwa.2 e h
+    · exact hwb.2 e h
+
+theorem Wiring.mem_components_append_left {wa wb : Wiring} {c : Comp} (h : c ∈ wa.components) :
+    c ∈ (wa ++ wb).components := by
+  rw [Wiring.mem_components] at h ⊢
+  rcases h with h | h
+  · rw [Wiring.mem_inputComponents] at h ⊢
+    obtain ⟨ent, hent, rest⟩ := h
+    exact Or.inl ⟨ent, List.mem_append_left _ hent, rest⟩
+  · exact Or.inr (by rw [akeys_append]; exact List.mem_append_left _ h)
+
+theorem IsPart.append (wa wb : Wiring) (hwa : wa.WF) (hwb : wb.WF)
+    (hdisj : ∀ c, c ∈ wa.components → c ∉ wb.components) :
+    IsPart (wa ++ wb) wa (fun c => c ∈ wa.components) := by
+  have hkeys : ∀ c, c ∈ akeys wa → c ∉ akeys wb := fun c hc hc' =>
+    hdisj c (Wiring.mem_components_of_mem_akeys hc) (Wiring.mem_components_of_mem_akeys hc')
+  have hwf : (wa ++ wb).WF := Wiring.WF_append hwa hwb hkeys
+  have hsrc : ∀ {w : Wiring} {a p b q}, w.Conn a p b q → a ∈ w.components := fun h =>
+    Wiring.mem_components_of_mem_akeys (Wiring.mem_akeys_of_conn h)
+  have htgt : ∀ {w : Wiring}, w.WF → ∀ {a p b q}, w.Conn a p b q → b ∈ w.components :=
+    fun {w} hw {a p b q} h => (Wiring.mem_components_iff' hw b).2 (Or.inr ⟨a, p, q, h⟩)
+  refine IsPart.of_wf hwf hwa ?_ ?_ ?_ ?_
+  · intro a p b q hb
+    rw [Wiring.conn_append]
+    constructor
+    · rintro (h | ⟨_, h⟩)
+      · exact h
+      · exact absurd (htgt hwb h) (hdisj b hb)
+    · exact Or.inl
+  · intro a p b q h
+    rcases Wiring.conn_append.1 h with h | ⟨_, h⟩
+    · exact ⟨fun _ => htgt hwa h, fun _ => hsrc h⟩
+    · exact ⟨fun ha => absurd (hsrc h) (hdisj a ha), fun hb => absurd (htgt hwb h) (hdisj b hb)⟩
+  · intro a p b q h
+    exact ⟨hsrc h, htgt hwa h⟩
+  · intro c hc
+    rw [Wiring.ups_isSome_iff', Wiring.ups_isSome_iff']
+    exact ⟨fun _ => hc, fun _ => Wiring.mem_components_append_left hc⟩
+
+/-! ### why `extent_stays_inside` needs `w.WF`
+
+A wiring with a duplicated (shadowed) port key: `Conn` reads the first entry (Python could
+never hold this value), `children` folds over both. -/
+
+def ceW : Wiring := [("a", [("o", []), ("o", [("b", "i")])])]
+def ceWa : Wiring := [("a", [])]
+
+theorem ceW_noConn (x : Comp) (p : Port) (y : Comp) (q : Port) : ¬ ceW.Conn x p y q := by
+  rintro ⟨ports, ins, h1, h2, h3⟩
+  simp only [ceW, alookup_cons, alookup_nil] at h1
+  split at h1
+  · cases h1
+    simp only [alookup_cons, alookup_nil] at h2
+    split at h2
+    · cases h2; simp at h3
+    · simp_all
+  · cases h1
+
+theorem ceWa_noConn (x : Comp) (p : Port) (y : Comp) (q : Port) : ¬ ceWa.Conn x p y q := by
+  rintro ⟨ports, ins, h1, h2, h3⟩
+  simp only [ceWa, alookup_cons, alookup_nil] at h1
+  split at h1
+  · cases h1; simp at h2
+  · cases h1
+
+theorem mem_dependants_leaf {w : Wiring} {r : Comp} (h : alookup w r = none) (x : Comp) :
+    x ∈ w.dependants r ↔ x = r := by
+  have : w.children r = none := by simp [Wiring.children, h]
+  simp [Wiring.dependants, Wiring.bfsFuel, bfs, this]
+
+theorem ce_a_mem (w : Wiring) (hw : ∀ r, r ≠ "a" → alookup w r = none) (roots : List Comp) :
+    "a" ∈ extent w roots ↔ "a" ∈ roots := by
+  rw [Det.mem_extent_iff]
+  constructor
+  · rintro ⟨r, hr, h⟩
+    by_cases hra : r = "a"
+    · exact hra ▸ hr
+    · exact ((mem_dependants_leaf (hw r hra) "a").1 h) ▸ hr
+  · intro h
+    exact ⟨"a", h, (Wiring.dependants_closed w "a").1⟩
+
+theorem ce_isPart : IsPart ceW ceWa (fun c => c = "a") where
+  conn_iff := fun a p b q _ => ⟨fun h => absurd h (ceW_noConn _ _ _ _), fun h => absurd h (ceWa_noConn _ _ _ _)⟩
+  closed := fun a p b q h => absurd h (ceW_noConn _ _ _ _)
+  inside := fun a p b q h => absurd h (ceWa_noConn _ _ _ _)
+  ups_some := by
+    rintro c rfl
+    decide
+  extent_iff := by
+    rintro roots rootsA c rfl hroots
+    rw [ce_a_mem ceW (fun r hr => by simp [ceW, alookup_cons, Ne.symm hr]),
+      ce_a_mem ceWa (fun r hr => by simp [ceWa, alookup_cons, Ne.symm hr]), hroots]
+    simp
+
+/-- `IsPart` alone does not keep the extent inside: the root `a ∈ A` drags in `b ∉ A`. -/
+theorem ce_extent : "b" ∈ extent ceW ["a"] ∧ ¬ ("b" = "a") := by decide
 
 end Tickit
